@@ -1,12 +1,15 @@
 SPEC = {
     "id": "C09",
     "props_file": "Props/C09.v",
-    "gen": ["sigcontexts"],
+    "gen": ["sigcontexts", "noncewriters"],
     "streams": [
         {"name": "deliver", "cmd": "auth",
          "args": {"quick": ["-mode", "deliver", "-runs", "12", "-blocks", "8", "-txs", "12"],
                   "thorough": ["-mode", "deliver", "-runs", "100", "-blocks", "12", "-txs", "14"]},
          "search_args": ["-mode", "deliver", "-runs", "60", "-blocks", "10", "-txs", "14"]},
+        {"name": "bitsweep", "cmd": "auth",
+         "args": {"quick": ["-mode", "sweep", "-stride", "1"],
+                  "thorough": ["-mode", "sweep", "-stride", "1", "-batch", "40"]}},
         {"name": "contexts", "cmd": "auth",
          "args": {"quick": ["-mode", "ctx", "-cases", "100"],
                   "thorough": ["-mode", "ctx", "-cases", "3000"]}},
@@ -14,6 +17,8 @@ SPEC = {
     "trusted_base": [
         "Coq 8.16.1 kernel (coqc; coqchk in the thorough tier); no native_compute",
         "harness/cmd/gen sigcontexts (go/ast walk over every non-test .go file under go/: signature.NewContext literals with WithChainSeparation/WithDynamicSuffix options, chainContextSeparator/chainContextMaxSize of signer.go, transaction.SignatureContext, MethodMetadata() implementers)",
+        "harness/cmd/gen noncewriters (go/ast: syntactic writes of .General.Nonce / GeneralAccount literals with a Nonce field / whole-struct .General assignments in non-test sources; pointer aliases are not seen)",
+        "verif-tagged go/common/crypto/signature/export_verif.go (lists the run-time context registry for the cross-check with the go/ast list)",
         "harness/cmd/auth + verifharness/internal/muxdrv (drives the real ABCI multiplexer with all consensus apps; abstracts byte strings with the repository's CBOR decoder and an independent stdlib Ed25519/SHA-512-256 check)",
         "vm_compute evaluation of Verif.Auth.Corr (instance of Verif.Auth.Model) on the recorded blocks (no extraction)",
         "abstract in the theorems (arbitrary): SHA-512/256, Ed25519 verification (unforgeability is NOT assumed: Forgery / collision are explicit disjuncts), the CBOR decoders of envelope and transaction, the staking address derivation, the ledger and ExecuteTx",
